@@ -349,12 +349,18 @@ BUSY = [
     ("abor-with-nothing-to-abort", ["USER bob"], ["ABOR"]),
     ("unknown-verbs", ["USER bob"], ["FROB x"]),
     ("transfer-without-data-connection", ["USER bob", "EPSV"], ["RETR /pa/sub/x.txt"]),
+    ("new-listener-then-transfer-without-data-connection", ["USER bob"], ["EPSV", "RETR /pa/sub/x.txt"]),
+    ("options-nobody-implements", ["USER bob"], ["OPTS UTF8 ON", "OPTS MLST type;size;", "FEAT", "STAT", "SITE CHMOD 777 x", "TYPE A", "TYPE L 8", "MODE S", "STRU F", "OPTS UTF8 OFF"]),
+    ("options-utf8-on", ["USER bob"], ["OPTS UTF8 ON"]),
+    ("options-utf-8-off", ["USER bob"], ["OPTS UTF-8 OFF", "opts utf8 off"]),
 ]
-BUSY_FOLLOW = ["USER bob", "EPSV", "@data", "STOR /pb/new.bin", "@data", "RETR /pb/f.bin", "@data", "LIST /pb", "REST 3", "@data", "RETR /pb/sub/x.txt", "MKD /pb/made", "QUIT"]
+# the same neighbours on a server whose passive ports come from a pool of two: what one session does with the pool
+BUSY_POOL = ["transfer-without-data-connection", "new-listener-then-transfer-without-data-connection", "passive-listener-churn", "stor-onto-a-directory", "retr", "list-of-a-missing-directory"]
+BUSY_FOLLOW = ["USER bob", "EPSV", "@data", "STOR /pb/new.bin", "@data", "RETR /pb/f.bin", "@data", "LIST /pb", "REST 3", "@data", "RETR /pb/sub/x.txt", "MKD /pb/made", "MKD /pb/\u00fcml\u00e4ut-\u4e2d", "EPSV", "@data", "MLSD /pb", "QUIT"]
 
 
-async def _busy_case(loop, prep, repeat, times, stays, with_first):
-    wd = W.World(loop, USERS)
+async def _busy_case(loop, prep, repeat, times, stays, with_first, server_kwargs=None):
+    wd = W.World(loop, USERS, server_kwargs=dict(server_kwargs or {}))
     await wd.start()
     out = {}
     try:
@@ -404,9 +410,29 @@ def busy_check(ctx, res):
     solo = _busy_job(([], [], 0, False, False))
     times = 70 if not ctx.thorough() else 300
     jobs = [(prep, rep, times, stays, True) for _, prep, rep in BUSY for stays in (True, False)]
+    pool_kw = {"data_ports": [41001, 41002]}
+    solo_pool = _busy_job(([], [], 0, False, False, pool_kw))
+    pool_jobs = [(prep, rep, 6, stays, True, pool_kw) for name, prep, rep in BUSY if name in BUSY_POOL for stays in (True, False)]
+    pool_names = [name for name, _, _ in BUSY if name in BUSY_POOL for _ in (0, 1)]
     mp = multiprocessing.get_context("fork")
     with mp.Pool(min(16, os.cpu_count() or 4)) as pool:
         outs = pool.map(_busy_job, jobs, chunksize=1)
+        pool_outs = pool.map(_busy_job, pool_jobs, chunksize=1)
+    for name, job, o in zip(pool_names, pool_jobs, pool_outs):
+        res.cases += 1
+        res.count("kind=busy-neighbour-port-pool")
+        if isinstance(o, str) or isinstance(solo_pool, str):
+            res.disagreements.append({"correspondence": "busy-neighbour harness (pool)", "input": [name, job[3]], "impl": o if isinstance(o, str) else solo_pool})
+            continue
+        res.distinct.add(("busy-pool", name, job[3]))
+        if o != solo_pool:
+            d = next(((x, y) for x, y in zip(o["recs"], solo_pool["recs"]) if x != y), None)
+            res.oracle_failures.append({
+                "input": {"kind": "busy-neighbour", "name": name, "prepare": job[0], "repeat": job[1], "times": job[2], "first_session_stays": job[3], "server_kwargs": pool_kw},
+                "what": "on a server with a pool of two passive ports, next to a session that had done %r %d times, another session got %s; alone it gets %s" % (
+                    job[1], job[2], (list(d[0])[:2] if d else "a different tree"), (list(d[1])[:2] if d else "")),
+                "signature": "C17:busy-neighbour-changes-another-session",
+            })
     for (name, prep, rep), k in zip([b for b in BUSY for _ in (0, 1)], range(len(jobs))):
         o, stays = outs[k], jobs[k][3]
         res.cases += 1
@@ -781,8 +807,8 @@ def replay(ctx, doc):
         print("alone                  :", solo)
         return o != solo
     if inp.get("kind") == "busy-neighbour":
-        o = _busy_job((inp["prepare"], inp["repeat"], inp["times"], inp["first_session_stays"], True))
-        solo = _busy_job(([], [], 0, False, False))
+        o = _busy_job((inp["prepare"], inp["repeat"], inp["times"], inp["first_session_stays"], True, inp.get("server_kwargs")))
+        solo = _busy_job(([], [], 0, False, False, inp.get("server_kwargs")))
         print("next to the busy session:", o if isinstance(o, str) else [r[:2] for r in o["recs"]])
         print("alone                   :", solo if isinstance(solo, str) else [r[:2] for r in solo["recs"]])
         return o != solo
